@@ -613,10 +613,13 @@ const HISTORY_ITEMS: &[(&str, usize, &str)] = &[
 	("'%d' % 'x'", 200, "error"),
 	("std.manifestIni(1)", 200, "error"),
 	// recursion just below the frame limit: must keep working however many earlier evaluations hit the limit
-	("local f(n) = if n == 0 then 0 else 1 + f(n - 1); f(185)", 200, "near-limit"),
-	("local f(n) = if n == 0 then 0 else 1 + f(n - 1); f(192)", 200, "near-limit"),
-	("local f(n) = if n == 0 then 0 else 1 + f(n - 1); f(195)", 200, "near-limit"),
-	("local f(n) = if n == 0 then 0 else 1 + f(n - 1); f(197)", 200, "near-limit"),
+	// (frame limit 0 = the thread's own default of 200 frames counted from depth zero, as in a one-shot run: a limit
+	// set relative to the current depth would hide a frame leaked by an earlier stack-limit hit)
+	("local f(n) = if n == 0 then 0 else 1 + f(n - 1); f(185)", 0, "near-limit"),
+	("local f(n) = if n == 0 then 0 else 1 + f(n - 1); f(192)", 0, "near-limit"),
+	("local f(n) = if n == 0 then 0 else 1 + f(n - 1); f(195)", 0, "near-limit"),
+	("local f(n) = if n == 0 then 0 else 1 + f(n - 1); f(197)", 0, "near-limit"),
+	("local f(n) = f(n + 1) + 1; f(0)", 0, "stack-limit"),
 	("local f(n) = if n == 0 then 0 else 1 + f(n - 1); f(45)", 50, "near-limit"),
 	("1 +", 200, "syntax"),
 	("{ a: 1 } { b: }", 200, "syntax"),
